@@ -10,7 +10,7 @@ EXPLANATION = (
     'the range tests). RES: .resb/.resw/.align move the counter and write nothing. DIRECTIVE: every documented data '
     'directive name is routed to the handler of its width. R-UNIT: `.org`, `$`, labels, .low/.high_address apply '
     'bytes_per_address exactly once. R-PASS: the byte order (and every other assembling state) selected in pass 1 is not '
-    'carried into pass 2. LIT-PAIR: the tokenizer prints a numeric literal with the conversion its consumers parse (signed 64-bit on both sides), so .dc64 0xffffffffffffffff denotes the same 64 bits. DATA-TAG: every data directive (incl. .binfile) emits through the tagged write path in pass 2. STR-ALL: the character loops of .db/.ascii leave only at the end of the string. TICK-FIRST: the character constant is converted before the `$` substitution. GETC-CHAR: bytes read with getc are kept in an int while they are compared with EOF (.binfile copies 0xff bytes). ONE-SIDED: a directive argument that is rejected above a limit is also tested from below or against zero. Not decided: string escapes, .binfile, .data_fill contents, overlap semantics.')
+    'carried into pass 2. LIT-PAIR: the tokenizer prints a numeric literal with the conversion its consumers parse (signed 64-bit on both sides), so .dc64 0xffffffffffffffff denotes the same 64 bits. DATA-TAG: every data directive (incl. .binfile) emits through the tagged write path in pass 2. STR-ALL: the character loops of .db/.ascii leave only at the end of the string. TICK-FIRST: the character constant is converted before the `$` substitution. GETC-CHAR: bytes read with getc are kept in an int while they are compared with EOF (.binfile copies 0xff bytes). ESC-CONST: every return of process_escape() is a constant of the escape table (unrecognised escapes are left alone). ONE-SIDED: a directive argument that is rejected above a limit is also tested from below or against zero. Not decided: string escapes, .binfile, .data_fill contents, overlap semantics.')
 
 
 def run(tier, t0):
@@ -20,6 +20,6 @@ def run(tier, t0):
     res.obs = [o for o in res.obs if o.file in ('core/directives_data.cpp', 'core/add_bin.cpp', 'core/Memory.cpp')]
     res.floor = 10
     results = [res, passes.docrange(prog), passes.res(prog, cg), passes.directives(prog), passes.unit(prog),
-               passes.rpass(prog, cg), lane.wrap_pages(prog, 2), expr.lit_pair(prog), expr.tick_first(prog), passes.string_loop(prog), listing.data_tag(prog), term.getc_char(prog, lambda f: f.file.startswith(('core/', 'fileio/'))), onesided.one_sided(prog)]
+               passes.rpass(prog, cg), lane.wrap_pages(prog, 2), expr.lit_pair(prog), expr.tick_first(prog), passes.string_loop(prog), listing.data_tag(prog), term.getc_char(prog, lambda f: f.file.startswith(('core/', 'fileio/'))), onesided.one_sided(prog), expr.esc_const(prog)]
     return report.finish('C05', tier, results, EXPLANATION,
                          ['documented ranges of .db/.dw as stated in the property'], common.TRUSTED, t0)
